@@ -228,7 +228,7 @@ func runC13(p *core.Prog, r *core.Report) {
 				if !okClip {
 					isEnd := func(v ssa.Value) bool { f, _ := core.LoadedField(core.SkipConv(v)); return f == end }
 					holder := c.Parent()
-					core.Instrs(holder, func(in ssa.Instruction) {
+					core.InstrsDeep(holder, func(in ssa.Instruction) {
 						ifi, ok := in.(*ssa.If)
 						if !ok || okClip {
 							return
@@ -309,7 +309,7 @@ func runC13(p *core.Prog, r *core.Report) {
 			return func(v ssa.Value) bool { return core.SkipConv(v) == ssa.Value(fn.Params[1]) }
 		}
 		okBelow, okFirst := false, false
-		core.Instrs(rg, func(in ssa.Instruction) {
+		core.InstrsDeep(rg, func(in ssa.Instruction) {
 			ifi, ok := in.(*ssa.If)
 			if !ok {
 				return
@@ -338,7 +338,7 @@ func runC13(p *core.Prog, r *core.Report) {
 		r.Check(okFirst, "C13.R3", "Range/first", "Range(FirstIndex()) is the clipped first range", "dispatch to firstRange on idx == FirstIndex() not found", p.Pos(rg.Pos()))
 		fr := p.Func(pkgBlock, "Segmenter.followingRange")
 		okAbove := false
-		core.Instrs(fr, func(in ssa.Instruction) {
+		core.InstrsDeep(fr, func(in ssa.Instruction) {
 			ifi, ok := in.(*ssa.If)
 			if !ok {
 				return
@@ -391,7 +391,7 @@ func runC13(p *core.Prog, r *core.Report) {
 				return false
 			}
 			isEnd := func(v ssa.Value) bool { f, _ := core.LoadedField(v); return f == endF }
-			core.Instrs(fr, func(in ssa.Instruction) {
+			core.InstrsDeep(fr, func(in ssa.Instruction) {
 				ifi, ok := in.(*ssa.If)
 				if !ok {
 					return
